@@ -700,6 +700,12 @@ def gen_round6(rng):
     out.append("xchg " + req(b"GET", b"/pf", "SF", rheaders(rng, 1), "n") + " " + plan(rng.choice([200, 201]), rheaders(rng, 1), "F", pre, gspec(rng, n) if n else "-"))
     k = min(n, 3000)
     out.append("raw %s 2 %s - cl - %s %s" % (rng.choice("sp"), hexs(h1), plan(200, [], "F", pre, gspec(rng, k) if k else "-"), second))
+    # the same with a Range in the request: the file branch selects the bytes behind headers that are already out
+    rg = rng.choice([b"bytes=2-7", b"bytes=5-", b"bytes=-3", b"bytes=50-60", b"bytes=0-99", b"items=1-2"])
+    out.append("xchg " + req(b"GET", b"/pf", "SF", [(b"Range", rg)], "n") + " " + plan(200, [], "F", pre, gspec(rng, 20)))
+    # a handler that names the chunked coding and writes nothing at all (also with 405: the headers are still unsent)
+    out.append("xchg " + req(b"GET", b"/s0", "SF", [], "n") + " " + plan(rng.choice([200, 405]), rheaders(rng, 1), rng.choice(["s", "S"]), "-", "7"))
+    out.append("raw s 2 %s - cl - %s %s" % (hexs(h1), plan(200, [], rng.choice(["s", "S"]), "-", "7"), second))
     # no body, no framing
     code = rng.choice([204, 304, 199])
     if code != 199:
@@ -937,7 +943,17 @@ def distribution(cases):
               "stream:content-length": 0, "stream:chunked": 0, "stream:chunked+content-length": 0,
               "connection:keep-alive": 0, "connection:close": 0, "http/1.0": 0, "expect:100-continue": 0, "range-header": 0,
               "escape:lower-or-mixed-case": 0, "escape:upper-case": 0, "pipelined-connections": 0, "sequential-connections": 0,
-              "headers-via-Dic-constructor": 0, "headers-via-setHeader": 0}
+              "headers-via-Dic-constructor": 0, "headers-via-setHeader": 0,
+              # the branches repaired in hunt rounds 4-8, one key per plan kind / condition
+              "kind:w write(part) without framing header": 0, "kind:W handler's writeFile": 0, "kind:F pieces then put(File)": 0,
+              "kind:F with Range": 0, "kind:B put then write()": 0, "kind:m missing file": 0, "kind:R verbatim Location": 0,
+              "kind:s/S nothing written": 0, "unframed stream to HTTP/1.0": 0, "unframed stream with 1xx/204/304": 0,
+              "handler sets Transfer-Encoding + put()": 0, "handler sets Content-Type/Date on a file": 0,
+              "upload (multipart)": 0, "upload through redirection": 0, "request object used again": 0,
+              "refused framing q (9-digit chunk size)": 0, "refused: non-token field name / no colon (request)": 0,
+              "refused: transfer coding not ending in chunked": 0, "refused response header block (cread/xchg)": 0,
+              "raw mode d (late reader)": 0, "last response >= 2 MB behind unread request bytes": 0}
+    TE = b"transfer-encoding"
     HCONN = b"Connection: ".hex()
     for c in cases:
         for l in c:
@@ -982,6 +998,82 @@ def distribution(cases):
                            "s": "plan:stream", "S": "plan:stream", "w": "plan:stream", "W": "plan:stream", "F": "plan:stream", "B": "plan:bytes/text", "m": "plan:file", "r": "plan:redirect", "R": "plan:redirect"}.get(kind)
                     if key:
                         branch[key] += 1
+                    # ---- repaired branches
+                    args = t[j + 2 + 2 * nh:]
+                    code = int(t[i + 1])
+                    phs = [(unhex(t[j + 1 + 2 * q]), unhex(t[j + 2 + 2 * q])) for q in range(nh)]
+                    reqhead = b""
+                    if t[0] == "raw":
+                        # the request head of this plan is the token 5 places before "P"
+                        try:
+                            reqhead = unhex(t[i - 4])
+                        except Exception:
+                            reqhead = b""
+                    http10 = b" HTTP/1.0\r\n" in reqhead
+                    if kind == "w":
+                        branch["kind:w write(part) without framing header"] += 1
+                    if kind == "W":
+                        branch["kind:W handler's writeFile"] += 1
+                    if kind == "F":
+                        branch["kind:F pieces then put(File)"] += 1
+                        if t[0] == "xchg" and b"Range".hex() in t[5:i]:
+                            branch["kind:F with Range"] += 1
+                    if kind == "B":
+                        branch["kind:B put then write()"] += 1
+                    if kind == "m":
+                        branch["kind:m missing file"] += 1
+                    if kind == "R":
+                        branch["kind:R verbatim Location"] += 1
+                        if t[0] == "xchg" and "u" in t[5:i]:
+                            branch["upload through redirection"] += 1
+                    if kind in ("s", "S") and args and args[0] == "-":
+                        branch["kind:s/S nothing written"] += 1
+                    if kind in ("w", "W", "F"):
+                        if http10:
+                            branch["unframed stream to HTTP/1.0"] += 1
+                            if args and args[0].startswith("g") and int(args[0].split(".")[1]) >= 2000000:
+                                branch["last response >= 2 MB behind unread request bytes"] += 1
+                        if code < 200 or code in (204, 304):
+                            branch["unframed stream with 1xx/204/304"] += 1
+                    if kind in ("b", "f") and args and args[0].startswith("g") and int(args[0].split(".")[1]) >= 2000000:
+                        branch["last response >= 2 MB behind unread request bytes"] += 1
+                    if kind in ("b", "t", "f", "n") and any(n.lower() == TE for n, _ in phs):
+                        branch["handler sets Transfer-Encoding + put()"] += 1
+                    if kind == "f" and any(n.lower() in (b"content-type", b"date") for n, _ in phs):
+                        branch["handler sets Content-Type/Date on a file"] += 1
+                    if any(not re.fullmatch(rb"[\x21-\x39\x3b-\x7e]+", n) for n, _ in phs):
+                        branch["refused response header block (cread/xchg)"] += 1
+            if t[0] == "raw":
+                if t[1] == "d":
+                    branch["raw mode d (late reader)"] += 1
+                for tok in t[3:]:
+                    if len(tok) > 40 and re.fullmatch(r"[0-9a-f]+", tok):
+                        try:
+                            hd = unhex(tok)
+                        except Exception:
+                            continue
+                        lines = hd.split(b"\r\n")[1:]
+                        if any(l and (l[:1] in b" \t" and k == 0 or (l[:1] not in b" \t" and not re.match(rb"[\x21-\x39\x3b-\x7e]+:", l)))
+                               for k, l in enumerate(lines)):
+                            branch["refused: non-token field name / no colon (request)"] += 1
+                        for l in lines:
+                            if l.lower().startswith(TE + b":") and l.split(b":", 1)[1].lower().split(b",")[-1].strip() != b"chunked":
+                                branch["refused: transfer coding not ending in chunked"] += 1
+                if any(re.fullmatch(r"ch[0-9,]*[uxzp]*q[uxzpq]*", tok) for tok in t):
+                    branch["refused framing q (9-digit chunk size)"] += 1
+            if t[0] == "cread":
+                hd = unhex(t[1])
+                lines = [l for l in hd.split(b"\r\n")[1:] if l and not l.startswith(b"HTTP/")]
+                if any(not re.match(rb"[\x21-\x39\x3b-\x7e]+:", l) for l in lines):
+                    branch["refused response header block (cread/xchg)"] += 1
+                if any("q" in tok and tok.startswith("ch") for tok in t[3:4]):
+                    branch["refused framing q (9-digit chunk size)"] += 1
+            if t[0] == "xchg":
+                if len(t[3]) > 2 and t[3][2].isdigit():
+                    branch["request object used again"] += 1
+                nh0 = int(t[4][1:])
+                if t[5 + 2 * nh0] == "u":
+                    branch["upload (multipart)"] += 1
             if t[0] in ("xchg", "cwire", "big"):
                 nh = int(t[4][1:])
                 kind = t[5 + 2 * nh]
@@ -1033,8 +1125,10 @@ TECHNIQUE = ("Lean 4 theorems about an executable model of the sender and the re
 LEVEL_TEXT = ("Proved in Lean 4 about the executable model AslModel.HttpFrame (transcription of HttpMessage::sendHeaders/write/writeFile/"
               "putFile, Socket_::readLine/read/write, HttpMessage::readHeaders/readBody, HttpRequest::read incl. the Expect answer, the "
               "status-line part and the 100-skipping loop of Http::request, and HttpServer::serve), for ALL inputs: "
-              "wire_request_exact / request_roundtrip — any sender's request (HTTP/1.0 or 1.1, any method/target, header lines without "
-              "CR LF or outer blanks within readLine's limit, body framed by Content-Length, by the sender's chunks, or by any chunked body "
+              "wire_request_exact / request_roundtrip — any sender's request (HTTP/1.0 or 1.1, any method/target; header lines whose "
+              "field NAME is a token — not empty, no colon, every byte above 0x20 and not DEL (WFName) — and whose VALUE is not empty, "
+              "has no LF and no outer blanks (WFValue; the empty value is covered only by the one-line empty_header_kept), within "
+              "readLine's limit; a Transfer-Encoding, if named, ends in chunked (CodingOk); body framed by Content-Length, by the sender's chunks, or by any chunked body "
               "of the grammar below) is returned exactly by HttpRequest::read on every live connection state, i.e. EVERY fragmentation "
               "(arbitrary answers of available()) and whatever follows; serveStep_exact / keepalive_seq — any sequence of such requests "
               "on one connection kept alive by HTTP/1.1 or Connection: keep-alive (pipelined or not, OPTIONS and chunked requests "
@@ -1053,8 +1147,13 @@ LEVEL_TEXT = ("Proved in Lean 4 about the executable model AslModel.HttpFrame (t
               "names neither a length nor a coding: the library announces Transfer-Encoding: chunked, sends the pieces as chunks and "
               "ends the stream, the client returns exactly the parts; bodyless_stream_plain / http10_stream_raw — a 1xx/204/304 sent "
               "that way is its header block alone, and to an HTTP/1.0 request the pieces go out as they are under Connection: close "
-              "(the library then closes the connection: serveStep_exact / keepalive_seq carry the hypothesis NotClosedByStream, an "
-              "HTTP/1.0 request is not answered by such a stream); chunked_put_roundtrip — a handler that asks for the chunked coding and put()s its body: no Content-Length goes out, the "
+              "(the library then closes the connection: serveStep_exact / keepalive_seq carry the exact hypothesis closesAfter = false — "
+              "the answer is not an unframed stream with a body status to an HTTP/1.0 request — and serveStep_http10_stream states the "
+              "excluded case: handler called, header block under Connection: close + the pieces, connection not kept); "
+              "refused_headers_no_response with refused_examples — a response whose header block the reader refuses is code 0 / "
+              "SOCKET_BAD_DATA, kernel-evaluated on a field name with a blank, a line without colon, an empty name, a leading "
+              "continuation, a block that breaks off, at both refusal points (after the status line, inside the 100-skipping loop); the "
+              "general statement over all header lists and all refused lines is NOT proved; chunked_put_roundtrip — a handler that asks for the chunked coding and put()s its body: no Content-Length goes out, the "
               "body goes in chunks and the library ends it with the last chunk, the client returns exactly code, dictionary and body; "
               "suffix_range_spec — Range: bytes=-k is the last k bytes; redirect_target_rfc3986 / redirect_target_absolute — the URL "
               "the client goes to for a redirection is the Location itself when it has a scheme and else its resolution against the "
@@ -1069,7 +1168,25 @@ LEVEL_TEXT = ("Proved in Lean 4 about the executable model AslModel.HttpFrame (t
               "own connection, every schedule gives each connection the answers of serving it alone. The model is tied to the real "
               "library on every run by the correspondence check over loopback TCP (real client, real server, raw-socket peers on either "
               "side, every op compared with the compiled model) and the block sizes by the translator.")
-LEVEL_NOTE = ("Trusted: Lean kernel; the regex translator of the two block-size macros; the harness (raw peers with their own message "
+LEVEL_NOTE = ("Model lemmas, not property clauses (one-step unfoldings of model definitions, listed for the reader of the "
+              "model): redirect_without_target_returned (followsRedirect), bodyless_stream_plain (serializeStream), "
+              "redirect_target_absolute, http10_stream_raw. Second audit, not done, what is and is not established: (a) "
+              "reader_accepts_rfc_chunked / reads_of_rfc_chunked require that no Content-Length is present; Transfer-Encoding next to a "
+              "valid Content-Length (reader 0d0b7c2, sender 07183e2) is in the model (readBodyWith lets the coding win) and K-validated "
+              "(distribution key stream:chunked+content-length), not a theorem. (b) There is no negative theorem on HttpFrame.serveStep "
+              "for the inputs WFName / CodingOk exclude (non-token names 9bf376e, leading continuation c2e6d14, coding not ending in "
+              "chunked 4dff910): the refusal is in the model (readHeadersLoop, readRequest, serveStep: no handler call, nothing "
+              "written, connection given up) and K-validated by generated and corpus cases (keys refused:*); C09 proves the negatives "
+              "about its own model. (c) file_response_roundtrip is about hand-assembled bytes (headerBlock + writeFile of the slice "
+              "under fileRangeHeaders); it is not tied by a lemma to serveOne's file branch (fillAbsent Date/Content-Type/"
+              "Cache-Control, sentHeaders, endOf) — that tie is K-validated only. (d) The library's own client reads no close-delimited "
+              "body (no length, no chunks: empty body) — harmless here since it always sends HTTP/1.1; that HTTP/1.0 pieces go out as "
+              "they are is validated by raw peers only. (e) raw ops have no independent reference (model-vs-library only): HTTP/1.0 "
+              "close-delimited answers, pipelined refusals, kinds m/F/B/w/W through raw peers; xchg/cread/par/dl/big lines have one. "
+              "(f) kind B is mapped to the same model message as put() alone: the model cannot express a body written twice, only K "
+              "sees that class (687bf13). (g) kind F with a Range request header and a handler that names the chunked coding and "
+              "writes nothing were model mismatches nobody exercised: now modelled (Kind.streamFile; the empty stream is the whole "
+              "message the server's closing write() sends) and generated. Trusted: Lean kernel; the regex translator of the two block-size macros; the harness (raw peers with their own message "
               "delimiter, digests, Date/port canonicalisation); the OS as parameter (send/read deliver non-empty prefixes, FIONREAD between "
               "1 and all unread bytes, TCP in-order delivery) and the timing assumption listed under assumptions (no clock in the model; "
               "the server drops every persistent connection 10 s after accept — judged not a violation of the property: HTTP lets a "
@@ -1269,7 +1386,10 @@ def _ref_xchg(t):
             cs[cap(n)] = v
         if len(cs) != len(ph) or any(not v for v in cs.values()):
             return None
-        if code == 405 and pk not in ("s", "w", "W", "F"):   # a streaming handler has sent its headers before serve() could add Allow
+        if pk == "F" and b"Range" in hs:
+            return None                  # the file branch runs behind headers already sent: K only (model kind streamFile)
+        streamed = pk in ("w", "W", "F") or (pk == "s" and body_of(pargs[0]))   # an empty 's' writes nothing: headers unsent
+        if code == 405 and not streamed:   # a streaming handler has sent its headers before serve() could add Allow
             cs[b"Allow"] = METHODS_TEXT
         body = b""
         if pk == "n":
